@@ -41,6 +41,7 @@ import (
 	"istio.io/istio/pkg/config/protocol"
 	"istio.io/istio/pkg/config/schema/kind"
 	"istio.io/istio/pkg/log"
+	"istio.io/istio/pkg/maps"
 	"istio.io/istio/pkg/security"
 	"istio.io/istio/pkg/slices"
 	netutil "istio.io/istio/pkg/util/net"
@@ -740,8 +741,9 @@ func buildInboundClustersFromServiceInstances(cb *ClusterBuilder, proxy *model.P
 	if cb.req.Push.Mesh.GetInboundTrafficPolicy().GetMode() == meshconfig.MeshConfig_InboundTrafficPolicy_PASSTHROUGH {
 		bind = ""
 	}
-	// For each workload port, we will construct a cluster
-	for epPort, instances := range clustersToBuild {
+	// For each workload port, we will construct a cluster (in port order: the order of the clusters must not
+	// depend on map iteration order)
+	for epPort, instances := range maps.SeqStable(clustersToBuild) {
 		if ingressPortListSet.Contains(int(instances[0].Port.TargetPort)) {
 			// here if port is declared in service and sidecar ingress both, we continue to take the one on sidecar + other service ports
 			// e.g. 1,2, 3 in service and 3,4 in sidecar ingress,
